@@ -8,3 +8,5 @@ def run(ctx):
     ctx.prove(["Props/%s.vo" % ctx.pid, "Run/eval_deps.vo"])
     ctx.trusted_base += depslib_trusted()
     depslib.run_engine_check(ctx, ctx.pid, 400 if ctx.quick else 6000, serial_bias=(ctx.pid == "C13"))
+    from checks.c01 import contention
+    contention(ctx, parts=("ctxerr",), rounds=200)      # a member failing with the context's own error stops a serial call like any other failure
